@@ -188,7 +188,17 @@ type realCycle struct {
 	ticks    int // last tick an iteration ran at
 	drift    string
 	err      error // harness problem
+	// the cycle did not run to its end: the code under test panicked, blocked for ever (every goroutine of the
+	// bubble blocked) or kept issuing bucket operations beyond opBudget
+	aborted string
 }
+
+// opBudget bounds the mutating bucket operations of one real cycle (a fault-free cycle of the catalogue needs a few
+// dozen). Beyond it every further mutating operation blocks for ever: the bubble ends with synctest's "all
+// goroutines are blocked" panic, which is recovered, instead of the cycle running until the deadline. (Cancelling the
+// context or failing the operation instead would send the code under test down error paths on which
+// block.ConcurrentLister can panic in a goroutine of its own.)
+const opBudget = 60
 
 func orderCap(p Params) int {
 	if p.I > p.D {
@@ -197,8 +207,8 @@ func orderCap(p Params) int {
 	return p.D + 1
 }
 
-func runRealCycle(t *testing.T, cw Wiring, set *orderSet, p Params, dir string) *realCycle {
-	rc := &realCycle{}
+func runRealCycle(t *testing.T, cw Wiring, set *orderSet, p Params, dir string) (rc *realCycle) {
+	rc = &realCycle{}
 	wi := rig.CheckWiring(t)
 	// the delays of the source tree under test (the build overlay of a mutant / fix is honoured by extractWiring)
 	wi.DeleteDelay = time.Duration(p.DeleteDelayS) * time.Second
@@ -209,8 +219,20 @@ func runRealCycle(t *testing.T, cw Wiring, set *orderSet, p Params, dir string) 
 		cfg.ReplicaLabels = []string{"replica"}
 	}
 	tick := time.Duration(p.TickS) * time.Second
+	defer func() {
+		if pv := recover(); pv != nil {
+			msg := fmt.Sprint(pv)
+			if len(msg) > 600 {
+				msg = msg[:600]
+			}
+			if rc.aborted == "" {
+				rc.aborted = "panic in the real compactor cycle: " + msg
+			}
+		}
+	}()
 	rig.Bubble(t, func(t *testing.T) {
 		ctx := context.Background()
+		never := make(chan struct{})
 		// same virtual instant as the one the blocks were built at: step past the compactor's consistency delay
 		time.Sleep(cw.CompactConsistency.Truncate(time.Second) + time.Hour)
 		b := vcrash.FromObjects(set.objs)
@@ -233,8 +255,16 @@ func runRealCycle(t *testing.T, cw Wiring, set *orderSet, p Params, dir string) 
 				}
 			}
 			mu.Lock()
-			rc.ops = append(rc.ops, ro)
+			over := len(rc.ops) >= opBudget
+			if !over {
+				rc.ops = append(rc.ops, ro)
+			} else if rc.aborted == "" {
+				rc.aborted = fmt.Sprintf("more than %d mutating bucket operations in one cycle (tick %d): the compactor does not come to rest", opBudget, cur)
+			}
 			mu.Unlock()
+			if over {
+				<-never
+			}
 		}
 		var logger log.Logger
 		if os.Getenv("VERIF_RIG_LOG") != "" {
@@ -746,6 +776,13 @@ func checkProgramOrder(t *testing.T, r *vlib.R, cw Wiring, sets *orderSets, p Pa
 			res.actions++
 			r.Nontrivial(fmt.Sprintf("order/%d/%s/%d/%d:%s", p.NJobs, flow, p.N, i, it.Desc))
 		}
+	}
+	if rc.aborted != "" {
+		c.Real = res.seq
+		r.Violation("conformance-compactor-cycle-aborted", fmt.Sprintf("%d job(s), %s flow (D=%d I=%d ticks of %ds): the real compactor's fault-free cycle did not run to its end: %s. Real action sequence so far: %s%s",
+			p.NJobs, flow, p.D, p.I, p.TickS, rc.aborted, strings.Join(res.seq, " "), iterErrNote(rc)), c)
+		res.violated = true
+		return res
 	}
 	// vacuity: the cycle must contain every compactor action of the model
 	need := map[string]int{"UploadData": p.NJobs, "UploadMeta": p.NJobs, "MarkSource": 2 * p.NJobs, "Clean": 1}
